@@ -194,6 +194,21 @@ def run(ctx, exe, ytree, d):
     neg.append(("#VNACAL 1.0", t1.replace("#VNACal 1.0", "#VNACAL 1.0", 1)))
     neg.append(("#VNACal 0.2 (major 0 through the new spelling)", t2.replace("#VNACAL 2.0", "#VNACal 0.2", 1)))
     neg.append(("#VNACal 2.0", t1.replace("#VNACal 1.0", "#VNACal 2.0", 1)))
+    # a required matrix missing from a data entry (1.0 documents, every type x every matrix of the type): the
+    # diagnostic must name THAT matrix (C11: the callback gets the documented one-line message; finding DJ90)
+    msgcases = []
+    for t in L.TYPES:
+        mr, mc = (2, 2) if t != "E12" else (2, 1)
+        mcal = G.gen_cal(rng, "Q", t, (mr, mc), F=1)
+        mcal["props"] = "absent"
+        full = L.write_vnacal([mcal], None, style="hex")
+        for nm in [m[0] for m in L.file_matrices(t, mr, mc)]:
+            cut = re.sub(r"(?m)^    %s:[^\n]*\n(?:    - [^\n]*\n)*" % nm, "", full, count=1)
+            if cut == full:
+                continue
+            c = add_case(os.path.join(d, "lgmiss_%s_%s.vnacal" % (t, nm)), cut, "%s without %s" % (t, nm))
+            c.want = nm
+            msgcases.append(c)
     negcases = [add_case(os.path.join(d, "lgneg%d.vnacal" % k), txt, lab) for k, (lab, txt) in enumerate(neg)]
     compat = os.path.join(ctx.repo, "src", "tests", "compat-V2.vnacal")
     ccase = Case(len(cases), compat, "compat-V2.vnacal")
@@ -203,7 +218,7 @@ def run(ctx, exe, ytree, d):
             f.write(txt)
     script = []
     for c in cases:
-        script += ["case %d" % c.idx, "load 0 %s" % c.path, "dump 0", "free 0", "leak"]
+        script += ["case %d" % c.idx, "load 0 %s" % c.path] + (["msg"] if hasattr(c, "want") else []) + ["dump 0", "free 0", "leak"]
     res = L.run_script(ctx, exe, "\n".join(script) + "\n", len(cases), timeout=600)
     rc, tout, terr = vplib.sh([ytree, "cal", "-"], input="".join(c.path + "\n" for c in cases), timeout=300, env=ctx.run_env())
     trees = L.parse_tree_dump(tout)
@@ -228,9 +243,24 @@ def run(ctx, exe, ytree, d):
             outcome[c.idx] = ("crash", None)
             continue
         ld = cr.lines[0]
+        if hasattr(c, "want"):
+            m = re.match(r"msg ([0-9a-f]*)$", cr.lines[1] if len(cr.lines) > 1 else "")
+            text = bytes.fromhex(m.group(1)).decode("utf-8", "replace") if m else None
+            mm = re.search(r'missing required matrix "([a-z]+)"', text or "")
+            if ld.startswith("load ok"):
+                violate(c, {"kind": "legacy", "class": "document without a required matrix accepted"}, "vnacal_load accepts a data entry without its %r matrix" % c.want)
+            elif mm is None:
+                violate(c, {"kind": "message", "class": "missing matrix not reported"}, "data entry without %r: the message is %r" % (c.want, text))
+            elif mm.group(1) != c.want:
+                violate(c, {"kind": "message", "class": "missing matrix reported under another name"},
+                        "the data entry lacks %r but the error callback is told: %s" % (c.want, text.split(" error: ")[-1]),
+                        {"message": text, "fix": "fixes/DJ90_vnacal_load_matrix_names.diff"})
+            else:
+                ctx.count(("missing-matrix-message", c.label))
+                ctx.traces_validated += 1
         if ld.startswith("load ok"):
             try:
-                st, _ = L.parse_dump(cr.lines, 1)
+                st, _ = L.parse_dump(cr.lines, 2 if hasattr(c, "want") else 1)
             except (ValueError, IndexError, AssertionError):
                 continue
             outcome[c.idx] = ("ok", st)
